@@ -67,7 +67,9 @@ def discharge(obligations, budget_s=20.0, portfolio=True, seeds=(0,)):
     if ob.status == 'unsat':
       continue
     results = {}
-    st, dt, out, model = run_z3(ob, budget_s, seeds[0])
+    # staged portfolio: a quick z3 attempt, then the other solvers, then z3 with the full budget
+    quick = min(3.0, budget_s)
+    st, dt, out, model = run_z3(ob, quick, seeds[0])
     results['z3-5.1'] = (st, dt, out)
     ob.model = model
     if st == 'unknown' and portfolio:
@@ -81,6 +83,11 @@ def discharge(obligations, budget_s=20.0, portfolio=True, seeds=(0,)):
           results['z3-4.8.12'] = (st3, dt3, out3)
       except Exception as e:  # export problems never become verdicts
         results['export'] = ('error', 0.0, repr(e)[:200])
+    if st == 'unknown' and budget_s > quick and not any(r[0] in ('unsat', 'sat') for r in results.values()):
+      st4, dt4, out4, model4 = run_z3(ob, budget_s, seeds[0])
+      results['z3-5.1/full'] = (st4, dt4, out4)
+      if model4 is not None:
+        ob.model = model4
     for sd in seeds[1:]:
       stn, dtn, outn, _ = run_z3(ob, budget_s, sd)
       results[f'z3-5.1/seed{sd}'] = (stn, dtn, outn)
